@@ -173,6 +173,7 @@ var timeForms = []timeForm{
 	{"time=now()", false, false},                                              // sets neither bound
 	{"time>='2019-04-10 10:00:00' and time<='2019-04-10 00:00:00'", true, true},
 	{"time>now()-1d and time<'2030-01-01 00:00:00'", false, true},
+	{"time>='2019-04-10 10:00:00' and time<='2019-04-10 10:00:00'", true, true}, // index 13: one-slot range, Start == End
 }
 
 const absRange = "time>='2019-04-10 00:00:00' and time<='2019-04-10 10:00:00'"
@@ -428,7 +429,7 @@ func forEachSQL(thorough bool, bounds map[string]interface{}, emit emitFn) {
 	// ---- F7 cross: every clause varies at once over representative sets ----
 	sels := []string{"f", "sum(f) as x,g", "max(sum(f))+g*2 as y", "(f-g)/2,0.5*f as x", "*"}
 	froms := []string{"cpu", "'cpu.load' on 'ns.1'"}
-	times := []timeForm{timeForms[0], timeForms[1], timeForms[3], timeForms[4]}
+	times := []timeForm{timeForms[0], timeForms[1], timeForms[3], timeForms[4], timeForms[13]}
 	xgb := []string{"", " group by host", " group by host,'ip.x',time(1m)", " group by time()"}
 	xhv := []string{"", " having f > 1", " having (sum(g)*2 <= 0.5 or f = g) and g != 3"}
 	xob := []string{"", " order by f desc", " order by g,max(f) desc", " order by x"}
